@@ -17,7 +17,8 @@ RULE = ("stream 'roundtrip': plaintext lengths 0..64 exhaustively (thorough: 0..
         "padded plaintext (recovered with openssl -nopad) must equal the Lean model's. stream 'tamper': every single-byte corruption position "
         "(sampled in quick for long inputs) and every truncation of the ciphertext must raise. stream 'wrong': other key / other media kind "
         "must raise. stream 'unpad': ciphertexts with a valid tag whose last block carries arbitrary padding bytes: real decrypt result vs the "
-        "model's unpad. distinct = distinct (stream, length, kind, key, position).")
+        "model's unpad. stream 'shared': one cipher object used by 2-3 threads at once (cooperative scheduler, scheduling points at the cipher's source lines): "
+        "each call must give the result it gives alone. distinct = distinct (stream, length, kind, key, position).")
 ASSUMPTIONS = ["AES-256-CBC is a keyed bijection on whole blocks (cryptography / openssl agree on it)", "HMAC-SHA256 and HKDF are modelled as abstract functions; "
                "collision-freeness of the truncated MAC on the compared inputs is a named hypothesis of the tamper theorems, exercised here on real inputs",
                "openssl CLI + stdlib HKDF = the independent implementation of the WhatsApp media layout"]
@@ -88,6 +89,14 @@ def cases(chk):
         yield "unpad", {"padded": body.hex(), "kind": r.choice(KINDS), "key": keys[i % 3]}
     yield "unpad", {"padded": "", "kind": "image", "key": keys[0]}
     yield "optimized", {"lens": [0, 1, 15, 16, 17, 33, 64, 1000]}
+    # one cipher object used by several threads at once (a download and an upload, two downloads): each caller passes its own key and kind, so
+    # each must get the result of its own call, whatever the interleaving (scheduling points at source lines of the cipher)
+    for i in range(chk.scale(40, 1500)):
+        jobs = []
+        for _j in range(r.choice([2, 2, 3])):
+            jobs.append({"op": r.choice(["encrypt", "decrypt", "decrypt-wrong-kind"]), "len": r.choice([0, 1, 15, 16, 17, 40, 200]), "kind": r.choice(KINDS),
+                         "key": bytes(r.randrange(256) for _ in range(32)).hex(), "seed": r.randrange(1 << 20)})
+        yield "shared", {"jobs": jobs, "sched": r.randrange(1 << 30), "prob": r.choice([0.15, 0.4, 0.8])}
 
 
 def nontrivial(stream, case):
@@ -148,9 +157,63 @@ def run_optimized(chk, case):
     return []
 
 
+def run_shared(chk, case):
+    import random
+    from lib import coop
+    from yowsup.layers.protocol_media.mediacipher import MediaCipher
+    mc = MediaCipher()
+    infos = chk.infos
+    jobs = case["jobs"]
+    want, got, inputs = [], [None] * len(jobs), []
+    for j in jobs:
+        key, info = bytes.fromhex(j["key"]), infos[j["kind"]]
+        p = _plain(j)
+        ref, _k = refcrypto.media_encrypt_ref(p, key, info)
+        if j["op"] == "encrypt":
+            inputs.append((p, key, info))
+            want.append(("ok", ref))
+        elif j["op"] == "decrypt":
+            inputs.append((ref, key, info))
+            want.append(("ok", p))
+        else:
+            other = infos[KINDS[(KINDS.index(j["kind"]) + 1) % len(KINDS)]]
+            inputs.append((ref, key, other))
+            want.append(("err", None))
+    c = coop.Coop()
+    rr = random.Random(case["sched"])
+    c.preempt_lines(["protocol_media/mediacipher.py"], case["prob"], rr)
+
+    def make(i):
+        def job():
+            data, key, info = inputs[i]
+            try:
+                got[i] = ("ok", (mc.encrypt if jobs[i]["op"] == "encrypt" else mc.decrypt)(data, key, info))
+            except Exception as e:
+                got[i] = ("err", type(e).__name__)
+        return job
+    for i in range(len(jobs)):
+        c.spawn(make(i))
+    c.run(coop.chooser(rr))
+    chk.hit("shared:threads=%d" % len(jobs), "shared:switches=%s" % min(9, sum(1 for a, b in zip(c.choices, c.choices[1:]) if a != b)))
+    fails = []
+    for i, j in enumerate(jobs):
+        g, w = got[i], want[i]
+        if g is None or g[0] != w[0] or (w[0] == "ok" and g[1] != w[1]):
+            what = ("raised %s" % g[1]) if g and g[0] == "err" else ("returned %d bytes%s" % (len(g[1]), " that are not the result of its own call" if w[0] == "ok" else
+                                                                     " of plaintext for a blob of another media kind")) if g else "did not finish"
+            fails.append(oracle("C15:shared-cipher-object:%s" % ("wrong-result" if w[0] == "ok" else "accepted"),
+                                "one MediaCipher object used by %d threads at once (%s): thread %d's %s of %d bytes (%s) %s; alone, the same call %s"
+                                % (len(jobs), ", ".join(x["op"] for x in jobs), i, j["op"], j["len"], j["kind"], what,
+                                   "returns the reference result" if w[0] == "ok" else "is rejected")))
+            break
+    return fails
+
+
 def run_case(chk, stream, case):
     if stream == "optimized":
         return run_optimized(chk, case)
+    if stream == "shared":
+        return run_shared(chk, case)
     fails = []
     mc, info = chk.mc, chk.infos[case["kind"]]
     key = bytes.fromhex(case["key"])
